@@ -1,2 +1,128 @@
-(** placeholder until the theorems land *)
-From SP Require Import Comb.CombModel.
+(** C13 - Combinatorial unranking functions are bijections with correct counts.
+
+    Each statement is a rank / unrank inverse pair with range, for ALL
+    parameters: [unrank] maps every index [0 <= j < N] to an arrangement of
+    the kind whose rank is [j], and every arrangement of the kind has its rank
+    in [0, N) and is what [unrank] returns there.  Hence [unrank] is a
+    bijection from [0, N) onto the arrangements, and [N] -- the value of the
+    matching counting function -- is their number.
+
+    Model: Comb/CombModel.v (literal model of sweetpea/_internal/combinatorics.py,
+    compared with the real code on every run).  Reference notions:
+    Comb/CombSpec.v.  The last two groups concern the explicit-stack / memo
+    implementation [k_prefixes_of_permutations_with_copies]: the bijection is
+    proved for the clean recursion [cnt] / [prefix_unrank], and the stack
+    machine and the memoised recursive counter are proved to compute exactly
+    those (for every valid memo table, relative to fuel: whenever they return
+    at all; fuel exhaustion is an error value the correspondence never sees). *)
+From Coq Require Import ZArith List Bool Lia.
+From SP Require Import Comb.CombModel Comb.CombSpec Comb.BinomFacts Comb.RadixProofs
+  Comb.CnsProofs Comb.PermProofs Comb.MultiProofs Comb.PrefixProofs.
+Import ListNotations.
+Open Scope Z_scope.
+
+(** ** mixed radix: [extract_components] *)
+Theorem C13_radix_bij : forall sizes, Forall (fun s => 0 < s) sizes ->
+  (forall n, 0 <= n < prodZ sizes ->
+     exists ds, extract_components sizes n = Ok ds /\ digits_ok sizes ds /\ radix_rank sizes ds = n) /\
+  (forall ds, digits_ok sizes ds ->
+     0 <= radix_rank sizes ds < prodZ sizes /\ extract_components sizes (radix_rank sizes ds) = Ok ds).
+Proof. exact RadixProofs.radix_bij. Qed.
+Print Assumptions C13_radix_bij.
+Example C13_radix_example :
+  Forall (fun s => 0 < s) [3; 4; 2] /\ prodZ [3; 4; 2] = 24 /\
+  extract_components [3; 4; 2] 23 = Ok [2; 3; 1] /\ radix_rank [3; 4; 2] [2; 3; 1] = 23.
+Proof. repeat split; repeat constructor. Qed.
+
+(** ** l-digit base-n numbers: [compute_jth_combination], count n^l *)
+Theorem C13_comb_bij : forall (l : nat) (n : Z), 0 < n ->
+  (forall j, 0 <= j < n ^ Z.of_nat l ->
+     exists ds, compute_jth_combination (Z.of_nat l) n j = Ok ds /\ length ds = l /\
+                Forall (fun d => 0 <= d < n) ds /\ comb_rank n ds = j) /\
+  (forall ds, length ds = l -> Forall (fun d => 0 <= d < n) ds ->
+     0 <= comb_rank n ds < n ^ Z.of_nat l /\
+     compute_jth_combination (Z.of_nat l) n (comb_rank n ds) = Ok ds).
+Proof. exact RadixProofs.comb_bij. Qed.
+Print Assumptions C13_comb_bij.
+Example C13_comb_example :
+  compute_jth_combination 3 2 5 = Ok [1; 0; 1] /\ comb_rank 2 [1; 0; 1] = 5.
+Proof. split; reflexivity. Qed.
+
+(** ** [n_choose_m] is the Pascal binomial coefficient *)
+Theorem C13_choose_eq_binom : forall n m : nat,
+  n_choose_m (Z.of_nat n) (Z.of_nat m) = Ok (binom n m).
+Proof. exact CnsProofs.choose_eq_binom. Qed.
+Print Assumptions C13_choose_eq_binom.
+Theorem C13_ncm_eq_binom : forall n m : nat,
+  n_choose_m_given_m_factorial (Z.of_nat n) (Z.of_nat m) (fact_nat m) = Ok (binom n m).
+Proof. exact CnsProofs.ncm_eq_binom. Qed.
+Print Assumptions C13_ncm_eq_binom.
+
+(** ** combinations without replacement: combinatorial number system onto the
+    strictly decreasing m-lists below n, count C(n,m) *)
+Theorem C13_cns_bij : forall n m : nat,
+  (forall j, 0 <= j < binom n m ->
+     exists cs, compute_jth_combination_without_replacement (Z.of_nat n) (Z.of_nat m) j = Ok cs /\
+                length cs = m /\ desc_below (Z.of_nat n) cs /\ cns_rank cs = j) /\
+  (forall cs, length cs = m -> desc_below (Z.of_nat n) cs ->
+     0 <= cns_rank cs < binom n m /\
+     compute_jth_combination_without_replacement (Z.of_nat n) (Z.of_nat m) (cns_rank cs) = Ok cs).
+Proof. exact CnsProofs.cns_bij. Qed.
+Print Assumptions C13_cns_bij.
+Example C13_cns_example :
+  binom 5 3 = 10 /\ compute_jth_combination_without_replacement 5 3 9 = Ok [4; 3; 2] /\
+  desc_below 5 [4; 3; 2] /\ cns_rank [4; 3; 2] = 9.
+Proof. repeat split; cbn; lia. Qed.
+
+(** ** permutation prefixes: onto the injective m-lists over [0,n), count n!/(n-m)! *)
+Theorem C13_perm_prefix_count : forall n m : nat, (m <= n)%nat ->
+  ffact (Z.of_nat n) m * fact_nat (n - m) = fact_nat n.
+Proof. exact PermProofs.ffact_fact. Qed.
+Print Assumptions C13_perm_prefix_count.
+Theorem C13_perm_prefix_bij : forall n m : nat, (m <= n)%nat ->
+  (forall j, 0 <= j < ffact (Z.of_nat n) m ->
+     exists p, compute_jth_permutation_prefix (Z.of_nat n) (Z.of_nat m) j = Ok p /\
+               length p = m /\ injective_below (Z.of_nat n) p /\ perm_rank (Z.of_nat n) p = j) /\
+  (forall p, length p = m -> injective_below (Z.of_nat n) p ->
+     0 <= perm_rank (Z.of_nat n) p < ffact (Z.of_nat n) m /\
+     compute_jth_permutation_prefix (Z.of_nat n) (Z.of_nat m) (perm_rank (Z.of_nat n) p) = Ok p).
+Proof. exact PermProofs.perm_prefix_bij. Qed.
+Print Assumptions C13_perm_prefix_bij.
+Example C13_perm_prefix_example :
+  ffact 4 2 = 12 /\ compute_jth_permutation_prefix 4 2 11 = Ok [3; 2] /\ perm_rank 4 [3; 2] = 11.
+Proof. repeat split. Qed.
+
+(** ** permutations of a multiset: [_construct_permutation_with_copies] with
+    [count_remaining_permutations], count = multinomial coefficient *)
+Theorem C13_multiperm_count : forall cs, Forall (fun c => 0 <= c) cs ->
+  count_remaining_permutations cs = Ok (multinomial cs).
+Proof. exact MultiProofs.crp_eq_multinomial. Qed.
+Print Assumptions C13_multiperm_count.
+Theorem C13_multiperm_bij : forall cs, Forall (fun c => 0 <= c) cs ->
+  (forall idx, 0 <= idx < multinomial cs ->
+     exists w, construct_with_copies idx (Z.of_nat (length cs)) (zsum cs) cs = Ok w /\
+               arrangement_of cs w /\ multi_rank cs w = idx) /\
+  (forall w, arrangement_of cs w ->
+     0 <= multi_rank cs w < multinomial cs /\
+     construct_with_copies (multi_rank cs w) (Z.of_nat (length cs)) (zsum cs) cs = Ok w).
+Proof. exact MultiProofs.multiperm_bij. Qed.
+Print Assumptions C13_multiperm_bij.
+Example C13_multiperm_example :
+  multinomial [2; 1; 2] = 30 /\ construct_with_copies 29 3 5 [2; 1; 2] = Ok [2; 2; 1; 0; 0] /\
+  multi_rank [2; 1; 2] [2; 2; 1; 0; 0] = 29.
+Proof. repeat split. Qed.
+
+(** ** prefixes of permutations with bounded repetitions (uniform or per
+    element): onto the words of length first_n with symbol i used at most
+    cs_i times, count [cnt cs first_n] *)
+Theorem C13_prefix_copies_bij : forall cs first_n, Forall (fun c => 0 <= c) cs -> 0 <= first_n ->
+  (forall idx, 0 <= idx < cnt cs first_n ->
+     exists w, prefix_unrank cs first_n idx = Some w /\ bounded_word cs first_n w /\ prefix_rank cs w = idx) /\
+  (forall w, bounded_word cs first_n w ->
+     0 <= prefix_rank cs w < cnt cs first_n /\ prefix_unrank cs first_n (prefix_rank cs w) = Some w).
+Proof. exact (PrefixProofs.prefix_copies_bij_from_multi MultiProofs.multiperm_bij). Qed.
+Print Assumptions C13_prefix_copies_bij.
+Example C13_prefix_copies_example :
+  cnt [2; 2; 2] 4 = 54 /\ prefix_unrank [2; 2; 2] 4 7 = Some [0; 2; 1; 2] /\
+  prefix_rank [2; 2; 2] [0; 2; 1; 2] = 7.
+Proof. repeat split. Qed.
